@@ -230,6 +230,18 @@ def gen(rng, shape=None, allow_tiny=True):
         t = [c[0] + r * math.cos(a1), c[1] + r * math.sin(a1), s[2]]
         req.update(shape="arc", target=t, center=c, centers=[c], r=r, hasz=False, far=False, len=r * sweep)
         return req
+    if allow_tiny and shape == "arc" and rng.random() < 0.2:
+        # a fillet: an arc only 1-5 resolutions long on a radius of a few resolutions (added after seed C12g: a rounded
+        # division count made one segment up to 1.45 resolutions long on such paths only)
+        r = rng.uniform(2.0, 6.0) * res
+        ratio = rng.uniform(1.1, 4.9)
+        a0 = rng.uniform(-math.pi, math.pi)
+        c = [s[0] - r * math.cos(a0), s[1] - r * math.sin(a0), s[2]]
+        sweep = min(ratio * res / r, 2 * math.pi - 0.2)
+        a1 = a0 + sgn * sweep
+        t = [c[0] + r * math.cos(a1), c[1] + r * math.sin(a1), s[2]]
+        req.update(target=t, center=c, centers=[c], r=r, hasz=False, far=sweep > 0.3, len=r * sweep)
+        return req
     if shape in ("arc", "circle"):
         r = rng.uniform(4 * res, 45)
         a0 = rng.uniform(-math.pi, math.pi)
